@@ -76,12 +76,12 @@ func zzFragArith(pick func(k int) bool) {
 	verifAssert(total == L, "fragment payload lengths sum to the original length")
 }
 
-//verif:harness kind=api mode=int unwind=300 tier=quick bound=k∈{1..4,127,128,254..257}
+//verif:harness kind=api mode=int unwind=300 ifconv=off tier=quick bound=k∈{1..4,127,128,254..257}
 func ZZ_C05_FragArith() {
 	zzFragArith(func(k int) bool { return k <= 4 || k == 127 || k == 128 || k >= 254 })
 }
 
-//verif:harness kind=api mode=int unwind=300 tier=thorough bound=k∈{1..257}
+//verif:harness kind=api mode=int unwind=300 ifconv=off tier=thorough bound=k∈{1..257}
 func ZZ_C05_FragArithAll() {
 	zzFragArith(func(k int) bool { return true })
 }
